@@ -285,7 +285,7 @@ class Key(AbstractKey):
         :param name: the Name of the Key to delete.
         :type name: :any:`NonStrictName`
         """
-        return self.pib.del_certificate(name)
+        return self.pib.del_cert(name)
 
     def has_default_cert(self) -> bool:
         """
